@@ -7,6 +7,9 @@ gvars == <<vars, hist>>
 GenGrids == {<<2,2,1>>, <<3,1,1>>, <<1,2,2>>, <<1,1,4>>}
 GenTriples == {<<0,0,0>>, <<0,1,0>>, <<0,1,1>>, <<1,1,0>>, <<0,2,0>>, <<1,0,1>>, <<0,2,1>>, <<1,1,1>>}
 GenCfgSpace == {[grid |-> g, pb |-> t[1], mb |-> t[2], sb |-> t[3]] : g \in GenGrids, t \in GenTriples}
+GenCfgSpaceThorough == GenCfgSpace \cup
+  {[grid |-> g, pb |-> t[1], mb |-> t[2], sb |-> t[3]] :
+     g \in {<<1,1,5>>, <<2,3,1>>}, t \in {<<0,1,0>>, <<1,1,1>>, <<0,2,1>>}}
 GenInit == Init /\ hist = << >>
 GenNext == \/ \E p \in AllPos(cfg.grid) : Store(p) /\ hist' = Append(hist, p)
            \/ Close /\ hist # << >> /\ UNCHANGED hist
